@@ -35,7 +35,8 @@ pb = bind_repo()
 PID = "C11"
 DATA = REPO + "/tests/data/"
 TRACE_FILES = (REPO + "/pulsarbat/readers/", REPO + "/pulsarbat/utils.py")
-BOUNDS = {"quick": dict(hist_depth=3, preempt=1, sched_threads=[2]), "thorough": dict(hist_depth=4, preempt=2, sched_threads=[2, 3])}
+# (threads, preemption bound) pairs explored per reader configuration
+BOUNDS = {"quick": dict(hist_depth=3, sched=[(2, 1)]), "thorough": dict(hist_depth=4, sched=[(2, 2), (3, 1)])}
 
 
 def describe(tier):
@@ -43,8 +44,7 @@ def describe(tier):
     return {
         "bounds": {"readers": READER_NAMES, "offset<->time": "every k in [0, len] (absolute, relative s/us, k-0.4, k+0.4)",
                    "boundary reads": "offsets {0,1,2,frame+-1,file boundary+-1,len-2,len-1,len} x n {0,1,2,3,frame,frame+1}",
-                   "history depth": b["hist_depth"], "history alphabet": 8, "threads": b["sched_threads"],
-                   "preemption bound": b["preempt"]},
+                   "history depth": b["hist_depth"], "history alphabet": 8, "(threads, preemption bound)": b["sched"]},
         "alphabet": ["offset_at(time_at(k))", "read(offset, n)", "read(..., use_dask=True[, chunks])", "dask_read", "read(lock=)",
                      "sequences of reads on one reader", "concurrent reads (explored schedules)", "joint Dask graph of two readers",
                      "contains / stop_time"],
@@ -216,11 +216,13 @@ def gen_cases(tier, seed):
                    "depth": (b["hist_depth"] if nm not in ("guppi", "guppi-lsb", "vdif-real") else 3) if deep else 2}
     for nm in ("dada-complex", "dada-complex-mask", "gen-dada-real", "guppi", "gen-stokes-lsb", "vdif-real"):
         for lock in (False, True):
-            for nthreads in b["sched_threads"]:
+            for nthreads, bound in b["sched"]:
                 # partition of the schedule space by the point of the first preemption (None = the default schedule + bound 0)
                 yield {"kind": "sched", "reader": nm, "lock": lock, "threads": nthreads, "bound": 0, "first": None}
-                for chunk in range(8):
-                    yield {"kind": "sched", "reader": nm, "lock": lock, "threads": nthreads, "bound": b["preempt"], "first": chunk}
+                nparts = 8 if bound == 1 else 48
+                for chunk in range(nparts):
+                    yield {"kind": "sched", "reader": nm, "lock": lock, "threads": nthreads, "bound": bound, "first": chunk,
+                           "parts": nparts}
     yield {"kind": "joint"}
     yield {"kind": "freerun"}
 
@@ -486,12 +488,12 @@ def sched_case(case, res, spec, r):
         st = sched_threads.explore(make, TRACE_FILES, 0, check)
         res.info[f"sched_points_{spec.name}_{case['threads']}t_{'lock' if case['lock'] else 'nolock'}"] = st["points"]
     else:
-        # chunk k of 8 over the first-preemption point index
+        # chunk k of `parts` over the first-preemption point index
         s0 = sched_threads.Sched([], TRACE_FILES)
         s0.run(make(s0))
         npts = len(s0.trace)
         st = {"executions": 0, "transitions": 0, "outcomes": set(), "points": npts, "divergences": 0}
-        for i in range(case["first"], npts, 8):
+        for i in range(case["first"], npts, case.get("parts", 8)):
             si = sched_threads.explore(make, TRACE_FILES, case["bound"], check, first_deviation=i)
             for k in ("executions", "transitions", "divergences"):
                 st[k] += si[k]
